@@ -30,6 +30,12 @@ CHECKS = {
  "C16": ("exploration", "metamorphic runtime monitor (-b SYM:n:c vs opening purchase) + malformed-spec monitor on the binary",
          "Every generated input is run with an opening position and, separately, with an equivalent purchase by the default affiliate 31-1000 days earlier; every cell of every later row, footers, errors and the aggregate must be identical, positions for absent securities must have no effect, and every malformed specification must make the binary exit non-zero with a message and no report (library entry point likewise).",
          "n = 0 is compared with no purchase at all (a Buy of 0 shares is not expressible).", "C16"),
+ "C10": ("exploration", "round-trip runtime monitor through the real summary path (library and binary)",
+         "For error-free generated histories and boundary-biased summary dates, in both modes, the summary produced by the real entry point and CSV writer is fed back with the rows settling after the date; the re-run must succeed and every later row's gain, superficial loss, share balances and cost base, the final holdings, and (annual mode) each past year's net gain per non-registered affiliate must agree with the full run within 1e-9.",
+         "Opening positions are not combined with summaries (the statement does not say whether -b is passed again); zero-share copies of an all-affiliate split are not figures.", "C10"),
+ "C17": ("exploration", "reference-model runtime monitor over the same run's rows + binary CSV files",
+         "The per-day maxima, carry-forward, totals, yearly rows and ignored-transaction notes of the --total-costs tables are recomputed from the New ACB of the rows reported in the same run and compared exactly; a sample is run through the real binary and its total-costs.csv / yearly-max-costs.csv compared with the render model.",
+         "Only runs without a rejected security are judged, as the statement says.", "C17"),
 }
 PENDING = {}
 
